@@ -28,7 +28,13 @@ def run(chk):
         if w.get("outcome") == "ok" and not w["bytes_equal"]:
             byte_diffs[c["id"]] = w
     # the crate writes; TLC decodes (I->S)
-    rc = [{"id": c["id"], "lib": c["lib"]} for c in cases]
+    # thorough: the byte comparison above covers every generated library; the record-by-record decoding by TLC (about 20
+    # records per library, 40 000 events per TLC run) takes every 8th of them plus 1500 random large libraries
+    rc = [{"id": c["id"], "lib": c["lib"]} for c in (cases[::8] if thorough else cases)]
+    # records at and beyond the 65535-byte limit (XY with 8190..8192 points, strings of 65530..65532 bytes): the writer may
+    # refuse them, but whatever it writes must be a well-formed stream
+    from . import c01
+    rc += [{"id": f"limit-{c['limit']}", "lib": c["lib"]} for c in c01.big_cases()]
     n = 1500 if thorough else 120
     rc += [{"id": f"rnd{i}", "seed": chk.seed * 100000 + i, "structs": 1 + i % 5, "elems": 5 + (i % (60 if thorough else 25))} for i in range(n)]
     rec = vlib.harness("gds_record", rc, W, tag="record", timeout_ms=60000)
@@ -92,8 +98,8 @@ def run(chk):
     return chk.finish(
         "model_checking",
         rule="every library of the C01 generator (one element per stream x optional-record subsets x value profiles; simulated "
-             "multi-structure libraries) plus random large libraries, written by the crate and decoded record by record by the "
-             "TLA+ grammar/codec. non-trivial = at least one structure.",
+             "multi-structure libraries; thorough: every 8th of the 640 000) plus random large libraries, written by the crate and "
+             "decoded record by record by the TLA+ grammar/codec. non-trivial = at least one structure.",
         assumptions=["libraries for which writing fails are outside the quantifier", "reals in range, no -0.0; strings without NUL",
                      "element XY point counts are the library's content, not the writer's (any count accepted for boundary/path/node)"])
 
